@@ -40,7 +40,8 @@ class C06(Prop):
                   "contract holds by construction; spec_ok additionally requires that all keys of one class were reported with one hash.")
     rule = ("histories: 1 thread, 4-14 calls over 2-5 key classes (variants = equal keys built differently; classes chosen to collide in one "
             "shard half of the time), all three kinds, every call kind; exhaustive schedules of {2 creators}, {creator || create;delete}, "
-            "{create;get || delete} (thorough: + {creator || retain}, {2x2 calls}); races: 2-3 threads x 1-2 calls ({2 creators same key}, {creator || "
+            "{create;get || delete} (thorough: + {creator || retain}, {2x2 calls}); directed same-shard triples {creator K || creator K or K2 || "
+            "create Y; delete/retain/clear Y} with the size-preserving interleaving and perturbations of it; races: 2-3 threads x 1-2 calls ({2 creators same key}, {creator || "
             "deleter}, {creator || retain/clear}, mixed), random/bursty schedules + round-robin tail; non-trivial = some storage constructed and "
             "(a removal or a second creator of a live class or >=2 threads reaching their locks); distinct = distinct (programs, executed trace)")
     assumptions = ["SC memory model at shard-lock granularity", "yield hooks placed immediately before each shard lock acquisition of registry/mod.rs",
@@ -105,7 +106,8 @@ class C06(Prop):
         k = self.table()["k"]
         out = []
         for f, j in super().corpus():
-            j = dict(j, case=dict(j["case"], k=k))
+            progs = [[(o[:2] + self.key(o[2], o[3])) if o[0] in "CGD" else o for o in p] for p in j["case"]["progs"]]
+            j = dict(j, case=dict(j["case"], k=k, progs=progs))
             out.append((f, j))
         return out
 
@@ -144,15 +146,22 @@ class C06(Prop):
         for progs, lens in confs:
             for sch in self.interleavings(lens):
                 out.append(dict(k=k, progs=progs, sched=sch))
+        from .core import Rng
+        r2 = Rng(20601)
+        for _ in range(6):
+            out.append(self.aba_case(r2, k, exact=True))
         return out
 
     def gen(self, rng, n):
         cases = self.enumerated(n) if n >= 300 else []
         k = self.table()["k"]
         for idx in range(max(n - len(cases), 0)):
-            mode = rng.weighted([(5, "hist"), (2, "cc"), (2, "cd"), (2, "cr"), (3, "mix")])
+            mode = rng.weighted([(5, "hist"), (2, "cc"), (2, "cd"), (2, "cr"), (3, "mix"), (4, "aba")])
             classes = self.pick_classes(rng, rng.range(2, 5))
             kinds = rng.pick(["c", "g", "h", "cg", "cgh", "cgh"])
+            if mode == "aba":
+                cases.append(self.aba_case(rng, k))
+                continue
             if mode == "hist":
                 w = [(8, "C"), (3, "G"), (4, "D"), (2, "R"), (1, "X"), (2, "V"), (3, "H")]
                 progs = [[self.rand_op(rng, classes, kinds, w) for _ in range(rng.range(4, 14))]]
@@ -199,6 +208,54 @@ class C06(Prop):
                         sched.append(rng.below(nt + (1 if style == 2 else 0)))
             cases.append(dict(k=k, progs=progs, sched=sched))
         return cases
+
+    def aba_case(self, rng, k, exact=False):
+        """three overlapping calls on keys of ONE shard: creator A of K misses under the read lock; before it
+        takes the write lock a second creator inserts K (or another same-shard key) and a remover takes a
+        pre-registered same-shard key Y out (delete / retain / clear), so the shard's size is unchanged"""
+        t = self.table()
+        big = [g for g in t["groups"] if len(g) >= 3] or t["groups"]
+        g = rng.shuffle(rng.pick(big))
+        K, Y = g[0], g[1]
+        K2 = g[2] if len(g) > 2 else g[0]
+        kd = rng.pick("cgh")
+        key = lambda c: self.key(c, rng.below(NVAR))
+        second = K if exact or rng.chance(3, 4) else K2
+        remover = "D" if exact else rng.weighted([(5, "D"), (3, "R"), (1, "X")])
+        if remover == "D":
+            rem = ["D", kd] + key(Y)
+        elif remover == "R":
+            rem = ["R", kd, [c for c in g if c != Y]]
+        else:
+            rem = ["X"]
+        A = [["C", kd] + key(K)]
+        B = [["C", kd] + key(second)]
+        D = [["C", kd] + key(Y), rem]
+        if not exact:
+            if rng.chance(1, 2):
+                A.append(rng.pick([["H", kd], ["D", kd] + key(K), ["G", kd] + key(K), ["V", kd]]))
+            if rng.chance(1, 3):
+                B.append(rng.pick([["D", kd] + key(K), ["C", kd] + key(Y), ["H", kd]]))
+        roles = [A, B, D]
+        perm = [0, 1, 2] if exact else rng.shuffle([0, 1, 2])
+        progs = [None, None, None]
+        for role, tix in enumerate(perm):
+            progs[tix] = roles[role]
+        a, b, d = perm
+        nrem = self.oplen(rem)
+        # D: start, 601, 602 (Y live) | A: start, 601 (miss) | B: start, 601, 602 (insert) | D: remover | A: 602
+        sched = [d, d, d, a, a, b, b, b] + [d] * nrem + [a]
+        if not exact and rng.chance(1, 3):
+            # perturb: swap two neighbours / drop one step / add an out-of-range index
+            i = rng.below(len(sched) - 1)
+            what = rng.below(3)
+            if what == 0:
+                sched[i], sched[i + 1] = sched[i + 1], sched[i]
+            elif what == 1:
+                del sched[i]
+            else:
+                sched.insert(i, 3)
+        return dict(k=k, progs=progs, sched=sched)
 
     def oplen(self, o):
         n = self.table()["shards"]
@@ -322,10 +379,12 @@ class C06(Prop):
             line = outs[0] if outs else ""
             runs.append(line)
             if rc != 0 or not line.startswith("STRESS ok=1 "):
-                out.append(("stress", "free-running stress (8 creator threads over 4 never-deleted classes of ==-equal keys built differently, "
-                            "all kinds, + 1 thread creating/deleting/retaining other classes): a handle was not Arc::ptr_eq to the first one, "
-                            "a never-deleted class was constructed more than once, a listing showed a class twice / lost a live class, or "
-                            "constructions != removals + live", dict(observed=line, stderr=err[-500:], cmd="STRESS 8 %d %d" % (iters, ctx["seed"] * 3 + rep))))
+                out.append(("stress", "free-running stress, no scheduler. Phase 1: 8 creator threads over 4 never-deleted classes of ==-equal keys built "
+                            "differently (all kinds, with get/visit/handles) + 1 thread creating/deleting/retaining other classes. Phase 2 (checked at "
+                            "quiescence after EVERY barrier round, all keys in ONE shard): racing creators of one absent key + a creator of another key + "
+                            "deleters of distinct live keys. Violated: handles not Arc::ptr_eq / racing creators got different storages, more than one "
+                            "construction for a class created once, a visit showed a class twice, handles listing != visit, delete untruthful or the key "
+                            "still present after delete, or constructions != removals + live", dict(observed=line, stderr=err[-500:], cmd="STRESS 8 %d %d" % (iters, ctx["seed"] * 3 + rep))))
                 break
         ctx["coverage"]["stress_runs"] = runs
         return out
